@@ -450,7 +450,7 @@ func (ex *Exec) applyContract(fr *Frame, c *Contract, names []string, args []Val
 		for _, e := range c.Exsures {
 			ex.vc.assume(Implies(pcond, ex.evalBool(e.E, envEx)))
 		}
-		fr.panics = append(fr.panics, panicExit{pcond, Scalar{ev, errorType}, thrownSt, ex.where(pos), "error thrown by " + short})
+		fr.panics = append(fr.panics, panicExit{pcond, Scalar{ev, errorType}, thrownSt, ex.where(pos), "error thrown by " + short, ex.vc.curCut, true})
 		nr := And(reach, Not(threw))
 		fr.newReach = &nr
 		reach = ex.vc.define("returned", nr)
